@@ -10,9 +10,9 @@ ASSUMPTIONS = [
 
 def run(ctx):
     quick = ctx["tier"] == "quick"
-    runs = [("par", 500 if quick else 8000, 40, 20, []),
-            ("par", 40 if quick else 400, 300, 21, []),
-            ("parperm", 1 if quick else 6, 12, 22, [])]
+    runs = [("par", 500 if quick else 40000, 40, 20, []),
+            ("par", 40 if quick else 2000, 300, 21, []),
+            ("parperm", 1 if quick else 30, 12, 22, [])]
     r = codec.run_art("C04", ctx, runs)
     def search():
         # other seeds, three times as many cases
